@@ -126,7 +126,7 @@ type HarnessCfg struct {
 
 func defaultCfg(name string) *HarnessCfg {
 	return &HarnessCfg{Name: name, Unwind: 300, MaxConcretise: 64, MaxPermute: 4, MaxPaths: 200000,
-		FeasTimeout: 10 * time.Second, AssertTimeout: 20 * time.Second, Workers: 16, Params: map[string]int{}}
+		FeasTimeout: 3 * time.Second, AssertTimeout: 20 * time.Second, Workers: 16, Params: map[string]int{}}
 }
 
 // ---- results ----
@@ -223,6 +223,7 @@ type Machine struct {
 	fault         *faultSpec
 	faultHit      bool
 	shortReads    bool
+	readLens      []int
 	outputs       []OutEvent
 	trackWrites   bool
 	sharedWrites  []string
@@ -339,6 +340,7 @@ func (m *Machine) resetPath(prefix []int) {
 	m.fault = nil
 	m.faultHit = false
 	m.shortReads = false
+	m.readLens = nil
 	m.outputs = nil
 	m.trackWrites = false
 	m.sharedWrites = nil
